@@ -26,6 +26,20 @@ SELF_FIELD_TYPES = {
     "pygobject": ["handlers.base.BaseHandler"],  # PYGHandler: instance of the PYGMain class of the loaded module
 }
 
+# attributes of `self` that hold objects from outside the repository (never resolved by name)
+EXTERNAL_SELF_FIELDS = {
+    "zip",  # zipfile.ZipFile (VFSZip.__init__)
+    "zipfd",  # file object of the archive
+    "mbox",  # mailbox.mbox / Maildir (FolderHandler)
+    "rfile", "wfile",  # socket files
+    "config",  # configparser.ConfigParser
+    "request", "socket",  # sockets
+    "httpheaders", "dircache", "entrycache", "invalid_paths", "formvals", "iconmapping",  # dict / set
+    "file",  # TemplateInterpreter output file
+    "module", "pygclass",  # PYGHandler: loaded module / class object
+    "message",  # email message
+}
+
 # local / parameter names -> base classes (same convention)
 LOCAL_TYPES = {
     "vfs": ["handlers.base.VFS_Real"],
@@ -176,6 +190,8 @@ class Resolver:
             # self.field.m(...)
             if rtext and rtext.startswith("self.") and rtext.count(".") == 1:
                 field = rtext.split(".")[1]
+                if field in EXTERNAL_SELF_FIELDS:
+                    return Target("ext", text, ext="?." + meth)
                 if field in SELF_FIELD_TYPES:
                     fs = self.methods_in(self._classes(SELF_FIELD_TYPES[field]), meth)
                     if fs:
@@ -195,6 +211,14 @@ class Resolver:
                     return Target("ext", text, ext="?." + meth)
                 if recv.id in EXTERNAL_RECEIVERS:
                     return Target("ext", text, ext="?." + meth)
+                # x = SomeRepoClass(...) earlier in the same function
+                if func is not None:
+                    ctor_cls = _local_ctor_class(prog, func, recv.id)
+                    if ctor_cls is not None:
+                        f = prog.resolve_method(ctor_cls, meth)
+                        if f is not None:
+                            return Target("repo", text, funcs=[f])
+                        return Target("ext", text, ext="?." + meth)
             # chained call receivers like self.getentry().m() / handler.getentry().m()
             if isinstance(recv, ast.Call):
                 inner = dotted(recv.func) or ""
@@ -212,6 +236,25 @@ class Resolver:
                 return Target("repo", text or ("?." + meth), funcs=list(self._by_name[meth]), by_name=True)
             return Target("ext", text or ("?." + meth), ext="?." + meth)
         return Target("unknown", text or "?")
+
+
+def _local_ctor_class(prog: Program, func: FuncInfo, name: str) -> Optional[ClassInfo]:
+    cache = getattr(func, "_ctor_types", None)
+    if cache is None:
+        cache = {}
+        for n in ast.walk(func.node):
+            if isinstance(n, ast.Assign) and len(n.targets) == 1 and isinstance(n.targets[0], ast.Name) \
+                    and isinstance(n.value, ast.Call):
+                d = dotted(n.value.func)
+                res = prog.resolve_dotted(func.module, d) if d else None
+                key = n.targets[0].id
+                if res and res[0] == "class":
+                    cache[key] = res[1] if key not in cache or cache[key] is res[1] else False
+                elif key in cache:
+                    cache[key] = False
+        func._ctor_types = cache
+    c = cache.get(name)
+    return c if c else None
 
 
 def _local_names(func: FuncInfo):
